@@ -75,6 +75,12 @@ func workerBinary(p *Prop) string {
 func runChild(bin string, args []string, env []string, logPath string, watchdog int) (exit int, timedOut bool) {
 	full := append([]string{"-s", "QUIT", "-k", "10", strconv.Itoa(watchdog), bin}, args...)
 	cmd := exec.Command("timeout", full...)
+	for _, e := range env {
+		if strings.HasPrefix(e, "VMON_MEMLIMIT_KB=") {
+			script := "ulimit -v " + strings.TrimPrefix(e, "VMON_MEMLIMIT_KB=") + "; exec \"$@\""
+			cmd = exec.Command("sh", append([]string{"-c", script, "sh", "timeout"}, full...)...)
+		}
+	}
 	cmd.Env = append(os.Environ(), env...)
 	lf, err := os.Create(logPath)
 	if err == nil {
@@ -100,6 +106,17 @@ func runChild(bin string, args []string, env []string, logPath string, watchdog 
 		return code, false
 	}
 	return 127, false
+}
+
+func childEnv(p *Prop, shard int, tier string) []string {
+	var env []string
+	if p.Env != nil {
+		env = p.Env(shard, tier)
+	}
+	if p.MemLimitMB > 0 && !p.Race {
+		env = append(env, fmt.Sprintf("VMON_MEMLIMIT_KB=%d", p.MemLimitMB*1024))
+	}
+	return env
 }
 
 func tail(path string, n int) string {
@@ -136,9 +153,13 @@ func RunParent(id, tier string) int {
 	dir := filepath.Join(VerifRoot(), ".run", id)
 	os.RemoveAll(dir)
 	os.MkdirAll(filepath.Join(dir, "replay"), 0o755)
-	n := 1
+	base := 1
 	if p.Shards != nil {
-		n = p.Shards(tier)
+		base = p.Shards(tier)
+	}
+	n := base
+	if p.Probes != nil {
+		n += p.Probes(tier)
 	}
 	watchdog := 900
 	if tier == "thorough" {
@@ -165,12 +186,9 @@ func RunParent(id, tier string) int {
 			defer wg.Done()
 			sem <- struct{}{}
 			defer func() { <-sem }()
-			var env []string
-			if p.Env != nil {
-				env = p.Env(k, tier)
-			}
+			env := childEnv(p, k, tier)
 			logPath := filepath.Join(dir, fmt.Sprintf("shard-%d.log", k))
-			args := []string{"worker", id, tier, strconv.FormatInt(seed, 10), strconv.Itoa(k), strconv.Itoa(n), dir}
+			args := []string{"worker", id, tier, strconv.FormatInt(seed, 10), strconv.Itoa(k), strconv.Itoa(base), dir}
 			exit, to := runChild(bin, args, env, logPath, watchdog)
 			results[k] = childResult{shard: k, exit: exit, timedOut: to, log: logPath}
 		}(k)
@@ -182,6 +200,7 @@ func RunParent(id, tier string) int {
 	var viols []Violation
 	var inconclusive []string
 	exhaustive := map[string]int{}
+	lostShards := 0
 	for k := 0; k < n; k++ {
 		r := results[k]
 		base := filepath.Join(dir, fmt.Sprintf("shard-%d", k))
@@ -208,10 +227,7 @@ func RunParent(id, tier string) int {
 				inconclusive = append(inconclusive, fmt.Sprintf("shard %d: %s with unreadable breadcrumb", k, what))
 				continue
 			}
-			var env []string
-			if p.Env != nil {
-				env = p.Env(k, tier)
-			}
+			env := childEnv(p, k, tier)
 			rlog := base + ".confirm.log"
 			wd := 120
 			if r.timedOut {
@@ -227,16 +243,17 @@ func RunParent(id, tier string) int {
 				vs := readViol(filepath.Join(dir, fmt.Sprintf("shard-%d.viol.json", 1000+k)))
 				viols = append(viols, vs...)
 				inconclusive = append(inconclusive, fmt.Sprintf("shard %d: %s (exit %d) not reproduced by its last input: %s", k, what, r.exit, tail(r.log, 12)))
+				lostShards++
 			case to2 && r.timedOut:
 				if p.CrashIsViolation {
-					viols = append(viols, Violation{Property: id, Monitor: bc.Monitor, Sig: "hang@" + bc.Monitor, Seed: seed, Shard: k, Case: bc.Case,
+					viols = append(viols, Violation{Property: id, Monitor: bc.Monitor, Sig: id + "/hang@" + bc.Monitor, Seed: seed, Shard: k, Case: bc.Case,
 						Detail: fmt.Sprintf("no result within %d s, again alone within %d s", watchdog, wd)})
 				} else {
 					inconclusive = append(inconclusive, fmt.Sprintf("shard %d: hang in %s", k, bc.Monitor))
 				}
 			default:
 				if p.CrashIsViolation {
-					viols = append(viols, Violation{Property: id, Monitor: bc.Monitor, Sig: "crash@" + bc.Monitor + ":" + firstLine(tail(rlog, 1)), Seed: seed, Shard: k, Case: bc.Case,
+					viols = append(viols, Violation{Property: id, Monitor: bc.Monitor, Sig: id + "/crash:" + crashSig(rlog), Seed: seed, Shard: k, Case: bc.Case,
 						Detail: "process died (confirmed alone in a fresh child): " + tail(rlog, 14)})
 				} else {
 					inconclusive = append(inconclusive, fmt.Sprintf("shard %d: reproducible crash in %s: %s", k, bc.Monitor, tail(rlog, 12)))
@@ -283,7 +300,7 @@ func RunParent(id, tier string) int {
 	// exhaustive parts count only when every shard completed them
 	var exParts []string
 	for e, c := range exhaustive {
-		if c == n {
+		if c == base && lostShards == 0 {
 			exParts = append(exParts, e)
 		}
 	}
@@ -411,6 +428,34 @@ func dedup(in []string) []string {
 	return out
 }
 
+// crashSig names a crash by its fatal line and the innermost frame of the code under test.
+func crashSig(logPath string) string {
+	b, err := os.ReadFile(logPath)
+	if err != nil {
+		return "unknown"
+	}
+	fatal, frame := "", ""
+	for _, l := range strings.Split(string(b), "\n") {
+		if fatal == "" && (strings.HasPrefix(l, "fatal error:") || strings.HasPrefix(l, "panic:")) {
+			fatal = strings.TrimSpace(l)
+			if len(fatal) > 60 {
+				fatal = fatal[:60]
+			}
+		}
+		if frame == "" && strings.HasPrefix(l, "github.com/aundis/formula.") {
+			f := strings.TrimPrefix(l, "github.com/aundis/formula.")
+			if i := strings.IndexAny(f, "({"); i > 0 {
+				f = f[:i]
+			}
+			frame = "formula." + f
+		}
+	}
+	if fatal == "" {
+		fatal = "died"
+	}
+	return fatal + "@" + frame
+}
+
 func firstLine(s string) string {
 	if i := strings.IndexByte(s, '\n'); i >= 0 {
 		s = s[:i]
@@ -524,10 +569,7 @@ func RunReplay(path string) int {
 	os.RemoveAll(dir)
 	os.MkdirAll(dir, 0o755)
 	tier := "quick"
-	var env []string
-	if p.Env != nil {
-		env = p.Env(v.Shard, tier)
-	}
+	env := childEnv(p, v.Shard, tier)
 	exit, to := runChild(workerBinary(p), []string{"replaycase", v.Property, tier, strconv.FormatInt(v.Seed, 10), dir, path, "0"}, env, filepath.Join(dir, "replay.log"), 3600)
 	if exit != 0 {
 		if exit == 3 {
